@@ -228,11 +228,12 @@ def run_check(pid, tier):
     disagreements, oracle_fail_new, known_hits = [], [], {}
     findings = [f for f in load_findings() if f["property"] == pid]
     if driver_ok:
-        for sname in P["suites"]:
+        for spec in P["suites"]:
+            sname = spec["name"]
             res = suite_result(sname, tier)
-            rel = P["relevant"]
-            orc = P["oracle"]
-            cls = P["classify"]
+            rel = spec["relevant"]
+            orc = spec.get("oracle")
+            cls = spec.get("classify", lambda c, i, w: None)
             for k, c in enumerate(res["cases"]):
                 if not rel(c):
                     continue
@@ -244,20 +245,27 @@ def run_check(pid, tier):
                 stats["distribution"][key] = stats["distribution"].get(key, 0) + 1
                 okey = f"{c.get('fmt', sname)}: {props.outcome_kind(i)}"
                 stats["outcomes"][okey] = stats["outcomes"].get(okey, 0) + 1
-                if len(stats["samples"]) < 6 and k % 97 == 0:
-                    stats["samples"].append({"request": c["req"][:160], "kind": c["kind"], "impl": i[:80]})
+                if len(stats["samples"]) < 8 and k % 97 == 0:
+                    stats["samples"].append({"request": props.show_case(c)[:240], "kind": c["kind"], "impl": i[:80]})
                 if m != i:
-                    disagreements.append({"request": c["req"], "kind": c["kind"], "model": m[:200], "impl": i[:200]})
-                why = orc(c, i)
+                    disagreements.append({"request": c["req"], "kind": c["kind"], "model": m[:200], "impl": i[:200],
+                                          "suite": sname})
+                elif spec.get("tie"):
+                    tw = spec["tie"](c, i)
+                    if tw:
+                        disagreements.append({"request": c["req"], "kind": c["kind"], "model": "pinned data", "impl": tw[:200],
+                                              "suite": sname + "/tie"})
+                why = orc(c, i) if orc else None
                 if why:
-                    klass = cls(c, i, why) if m == i else None
+                    klass = cls(c, i, why)
                     listed = next((f for f in findings if f["status"] == "known" and f["class"] == klass), None)
-                    if listed:
+                    if listed and m == i:
                         known_hits.setdefault(listed["id"], 0)
                         known_hits[listed["id"]] += 1
                     else:
                         oracle_fail_new.append({"request": c["req"], "kind": c["kind"], "impl": i[:300],
-                                                "model": m[:300], "why": why, "class": klass})
+                                                "model": m[:300], "why": why, "class": klass,
+                                                "readable": props.show_case(c)[:600]})
     else:
         obligations_broken.append(("driver", "the Lean driver could not be built; no correspondence was run"))
 
@@ -284,8 +292,10 @@ def run_check(pid, tier):
     lines = []
     if oracle_fail_new:
         violations = len(oracle_fail_new)
-        first = min(oracle_fail_new, key=lambda x: len(x["request"]))
+        # prefer an input outside every known-finding class, then the shortest
+        first = min(oracle_fail_new, key=lambda x: (x.get("class") is not None, len(x["request"])))
         path = write_replay(pid, {"property": pid, "type": "failing-input", "input": first["request"],
+                                  "readable": first.get("readable", ""),
                                   "why": first["why"], "impl": first["impl"], "model": first.get("model", ""),
                                   "kind": first["kind"], "others": len(oracle_fail_new) - 1,
                                   "broken_obligations": [o[0] for o in obligations_broken],
